@@ -65,3 +65,49 @@ def eval2(paths, a, b):
 def f64max_axiom(x, c, rel):
     """f64::max(x, c) for relation of x to c: returns the larger; if one is NaN returns the other (documented)."""
     return {'<': 'c', '=': 'either', '>': 'x', 'unordered': 'c'}[rel]
+
+
+def normaliser_table(F, util, norm):
+    """{rel of v to NO_DATA: 'v' | 'NO_DATA' | 'either' | '?'} for a normaliser descriptor of layout.unwrap_normaliser"""
+    if norm == 'f64::max':
+        return {r: {'c': 'NO_DATA', 'x': 'v', 'either': 'either'}[f64max_axiom('v', 'c', r)] for r in RELS}
+    if norm == 'f64::min':
+        return {'<': 'v', '=': 'either', '>': 'NO_DATA', 'unordered': 'NO_DATA'}
+    if isinstance(norm, tuple) and norm[0] == 'fn':
+        f = F.identity(norm[1])
+        if not f or f["argc"] != 2:
+            return {r: '?' for r in RELS}
+        ps, _ = util.run_fn(F, f, summarise_pure=False)
+        a, b = ('param', 1), ('param', 2)
+        res = eval2(ps, a, b)        # relation of arg1 to arg2
+        out = {}
+        vpos = norm[2]
+        for r in RELS:
+            # r is the relation of v to NO_DATA; the function sees (arg1, arg2) = (v, ND) or (ND, v)
+            rr = r if vpos == 0 else FLIP[r]
+            got = res.get(rr, set())
+            vt, ct = (a, b) if vpos == 0 else (b, a)
+            if got == {vt}:
+                out[r] = 'v'
+            elif got == {ct}:
+                out[r] = 'NO_DATA'
+            elif got and got <= {vt, ct}:
+                out[r] = 'either'
+            else:
+                out[r] = '?'
+        return out
+    return {r: '?' for r in RELS}
+
+
+WANT_NORMALISED = {'<': 'NO_DATA', '=': ('NO_DATA', 'v', 'either'), '>': 'v', 'unordered': 'NO_DATA'}
+
+
+def normaliser_ok(table):
+    for r, want in WANT_NORMALISED.items():
+        got = table.get(r)
+        if isinstance(want, tuple):
+            if got not in want:
+                return False
+        elif got != want:
+            return False
+    return True
